@@ -425,7 +425,7 @@ struct Digit {
                     }
                 }
                 ///////////////////////////////////////////////////////////
-                if (number.Natural != 0) {
+                {
                     const SizeT32 e_p10_power =
                         (SizeT32(tmp_offset - start_offset) - SizeT32(!fraction_only && has_dot));
 
@@ -516,12 +516,15 @@ struct Digit {
                         is_negative_exp = true;
                     }
 
-                    if ((is_negative_exp && (exponent > e_p10_power) && ((exponent - e_p10_power) > SizeT32{324})) ||
-                        (!is_negative_exp && ((exponent + e_p10_power) > SizeT32{309}))) {
+                    if (number.Natural == 0) {
+                        // Zero: nothing to scale, the rest of the numeral has been consumed.
+                    } else if (!is_negative_exp && ((exponent + e_p10_power) > SizeT32{309})) {
                         return QNumberType::NotANumber;
-                    }
+                    } else if (is_negative_exp) {
+                        if ((exponent > e_p10_power) && ((exponent - e_p10_power) > SizeT32{324})) {
+                            return QNumberType::NotANumber;
+                        }
 
-                    if (is_negative_exp) {
                         powerOfNegativeTen(number.Natural, exponent);
                     } else if (!powerOfPositiveTen(number.Natural, exponent)) {
                         return QNumberType::NotANumber;
